@@ -96,23 +96,34 @@ class Harness:
             self.sim = symsim.SymSim(m)
         self.engine = self.sim.engine
         self.extra = []
+        # the public front end (amaranth.sim.core.Simulator) over this engine: add_clock / add_process / add_testbench /
+        # advance below are the genuine methods
+        from amaranth.sim.core import Simulator
+        self.front = object.__new__(Simulator)
+        self.front._design = self.sim.design
+        self.front._engine = self.engine
+        self.front._clocked = set()
+        self.front._running = False
 
-    def add_clock(self, clk, phase, period):
+    def add_clock(self, domain, phase, period):
+        """phase / period: femtoseconds (ints or proxies), or None for the default phase."""
         before = list(self.engine._processes)
-        self.engine.add_clock_process(clk, phase=phase, period=period)
+        with warnings.catch_warnings():
+            warnings.simplefilter("ignore")
+            self.front.add_clock(period_fs(period), phase=None if phase is None else period_fs(phase), domain=domain)
         self.extra += [p for p in self.engine._processes if not any(p is q for q in before)]
 
     def add_process(self, fn):
         before = list(self.engine._processes)
         with warnings.catch_warnings():
             warnings.simplefilter("ignore")
-            self.engine.add_async_process(None, fn)
+            self.front.add_process(fn)
         self.extra += [p for p in self.engine._processes if not any(p is q for q in before)]
 
     def add_testbench(self, fn, background=False):
         with warnings.catch_warnings():
             warnings.simplefilter("ignore")
-            self.engine.add_async_testbench(None, fn, background=background)
+            self.front.add_testbench(fn, background=background)
 
     def all_processes(self):
         return list(self.sim.processes) + list(self.extra)
@@ -131,7 +142,7 @@ class Harness:
         n = 0
         with warnings.catch_warnings():
             warnings.simplefilter("ignore")
-            while self.engine.advance() and n < limit:
+            while self.front.advance() and n < limit:
                 n += 1
         return n
 
@@ -380,8 +391,8 @@ def build_engine_scenario(name):
         child.d.comb += z.eq(r2 + y)
         m.submodules.child = child
         h = Harness(m)
-        h.add_clock(cd.clk, 500, 1000)
-        h.add_clock(d2.clk, 500, 1000)          # same instants as sync
+        h.add_clock(cd, 500, 1000)
+        h.add_clock(d2, 500, 1000)              # same instants as sync
         x0, x1 = fresh("x0", 3, False), fresh("x1", 3, False)
 
         async def adder(ctx):                    # replaces a circuit o = a + r2 (simulator guide, "replacing combinational circuits")
@@ -421,7 +432,7 @@ def build_engine_scenario(name):
         with m.If(en):
             m.d.sync += count_c.eq(count_c + 1)
         h = Harness(m)
-        h.add_clock(cd.clk, 500, 1000)
+        h.add_clock(cd, 500, 1000)
         e0, e1, e2 = fresh("e0", 1, False), fresh("e1", 1, False), fresh("e2", 1, False)
 
         async def counter(ctx):
@@ -450,7 +461,7 @@ def build_engine_scenario(name):
         m.d.sync += r.eq(a)
         m.d.comb += y.eq(r + 1)
         h = Harness(m)
-        h.add_clock(cd.clk, 500, 1000)
+        h.add_clock(cd, 500, 1000)
         x0, x1 = fresh("x0", 3, False), fresh("x1", 3, False)
 
         async def tb1(ctx):
@@ -474,6 +485,68 @@ def build_engine_scenario(name):
         h.add_testbench(tb1)
         h.add_testbench(tb2)
         return h, obs, [cd.rst], "two testbenches in list order, delay, negedge"
+    if name == "partial-sets":
+        # two processes write different bit ranges of one signal in the same delta; one process writes two ranges in a row
+        m = Module()
+        cd = ClockDomain("sync")
+        m.domains += cd
+        c = Signal(4, name="c")
+        shared, twice = Signal(8, name="shared"), Signal(4, name="twice")
+        m.d.sync += c.eq(c + 1)
+        h = Harness(m)
+        h.add_clock(cd, 500, 1000)
+        x, y = fresh("x", 2, False), fresh("y", 2, False)
+
+        async def low(ctx):
+            async for clk_edge, rst_value, cv in ctx.tick().sample(c):
+                if clk_edge:
+                    ctx.set(shared[0:4], cv + 1)
+
+        async def high(ctx):
+            async for clk_edge, rst_value, cv in ctx.tick().sample(c):
+                if clk_edge:
+                    ctx.set(shared[4:8], 15 - cv)
+
+        async def both(ctx):
+            async for clk_edge, rst_value in ctx.tick():
+                if clk_edge:
+                    ctx.set(twice[0:2], x)
+                    ctx.set(twice[2:4], y)
+
+        async def tb(ctx):
+            c0 = ctx.get(c)
+            await ctx.tick()
+            obs.append(("both halves written in one delta are kept", ctx.get(shared), (((15 - c0) & 15) << 4) | ((c0 + 1) & 15)))
+            obs.append(("two partial writes by one process are kept", ctx.get(twice), (y << 2) | x))
+        for pr in (low, high, both):
+            h.add_process(pr)
+        h.add_testbench(tb)
+        return h, obs, [cd.rst], "partial ctx.set() of one signal from several processes in one delta"
+    if name == "three-testbenches":
+        # a testbench woken by an earlier testbench's write runs before the testbenches added after it
+        m = Module()
+        req, ack, flag = Signal(name="req"), Signal(name="ack"), Signal(3, name="flag")
+        m.d.comb += ack.eq(req)
+        h = Harness(m)
+        v = fresh("v", 3, False)
+
+        async def first(ctx):
+            await ctx.delay(period_fs(1000))
+            obs.append(("order", "first"))
+            ctx.set(req, 1)
+
+        async def second(ctx):
+            await ctx.changed(ack)
+            obs.append(("order", "second"))
+            obs.append(("second runs before third has written", ctx.get(flag), 0))
+
+        async def third(ctx):
+            await ctx.delay(period_fs(1000))
+            obs.append(("order", "third"))
+            ctx.set(flag, v)
+        for t_ in (first, second, third):
+            h.add_testbench(t_)
+        return h, obs, [req, flag], "three testbenches: the second is woken by the first one's write in the same time step"
     raise ValueError(name)
 
 
@@ -632,6 +705,16 @@ def time_job(job):
     B = 1 << 16
     ph, c1 = fresh_range("phase", 0, B)
     hp, c2 = fresh_range("half", 1, B)
+    default_phase = False
+    if job.get("concrete"):
+        # explicit zero phase / default phase through the genuine add_clock (its default is half a period, computed in floats)
+        hp, c2 = job["concrete"]["half"], z3.BoolVal(True)
+        ph, c1 = job["concrete"]["phase"], z3.BoolVal(True)
+        if ph is None:
+            default_phase, ph = True, hp
+        base["program"] = f"clock of period {2 * hp} fs with " + ("the default phase" if default_phase else f"an explicit phase of {ph} fs")
+        base["symbolic"] = "nothing (boundary case of the clock front end)"
+        base["nontrivial"] = False
     d1, c3 = fresh_range("d1", 0, B)
     d2, c4 = fresh_range("d2", 1, B)
     K = job.get("toggles", 4)
@@ -644,7 +727,7 @@ def time_job(job):
     r = Signal(2, name="r")
     m.d.sync += r.eq(r + 1)
     h = Harness(m)
-    h.add_clock(cd.clk, ph, 2 * hp)
+    h.add_clock(cd, None if default_phase else ph, 2 * hp)
     obs = []
 
     async def edges(ctx):
@@ -698,6 +781,7 @@ def time_job(job):
         if r_ == z3.sat:
             mdl = s.model()
             vals = {k: eval_in_model(mdl, v) for k, v in (("phase", ph), ("half", hp), ("d1", d1), ("d2", d2))}
+            vals["default_phase"] = default_phase
             rep = replay_time(vals, K)
             if rep:
                 return [dict(base, status=VIOLATION, detail=f"phase={vals['phase']} period={2 * vals['half']} delays={vals['d1']},{vals['d2']}: {rep}", signature={"kind": "time"},
@@ -718,7 +802,7 @@ def replay_time(vals, K):
         r = Signal(2, name="r")
         m.d.sync += r.eq(r + 1)
         sim = Simulator(m)
-        sim.add_clock(Period(fs=2 * vals["half"]), phase=Period(fs=vals["phase"]))
+        sim.add_clock(Period(fs=2 * vals["half"]), phase=None if vals.get("default_phase") else Period(fs=vals["phase"]))
 
         async def edges(ctx):
             for k in range(K):
@@ -819,10 +903,12 @@ def main(tier, seed):
     jobs = []
     for i, spec in enumerate(pair_designs(tier, seed)):
         jobs.append({"id": f"pair-{i:04d}", "what": "pair", "spec": spec})
-    for name in ("two-domains", "counter-process", "two-testbenches"):
+    for name in ("two-domains", "counter-process", "two-testbenches", "partial-sets", "three-testbenches"):
         jobs.append({"id": f"engine-{name}", "what": "engine", "scenario": name, "seed": seed, "orders": 12 if tier == "quick" else 120})
     jobs.append({"id": "time-delays", "what": "time", "toggles": 2 if tier == "quick" else 4, "delays": True})
     jobs.append({"id": "time-clock", "what": "time", "toggles": 6 if tier == "quick" else 10, "delays": False})
+    jobs.append({"id": "time-zero-phase", "what": "time", "toggles": 4, "delays": False, "concrete": {"phase": 0, "half": 5}})
+    jobs.append({"id": "time-default-phase", "what": "time", "toggles": 4, "delays": False, "concrete": {"phase": None, "half": 5}})
     jobs.append({"id": "hstate", "what": "hstate"})
     results, stats = run.run_jobs(job_fn, jobs, chunksize=1)
     skipped = [x for x in results if x.get("status") == "skipped"]
@@ -835,7 +921,7 @@ def main(tier, seed):
                      "amaranth.sim.pysim._PyTimeline", "amaranth.sim.pysim._PyTriggerState", "amaranth.sim.pysim._PySignalState / _PyMemoryState (two-phase update, via the state-class proof)",
                      "amaranth.sim._pyclock.PyClockProcess", "amaranth.sim._async.AsyncProcess / TestbenchContext / ProcessContext / TickTrigger / TriggerCombination",
                      "amaranth.sim._pyrtl compiled processes"]
-    rep.bounds = {"pair_designs": sum(1 for j in jobs if j["what"] == "pair"), "engine_scenarios": 3, "orders_per_scenario": "all n! for n <= 4 processes, else identity, reverse and seeded random orders "
+    rep.bounds = {"pair_designs": sum(1 for j in jobs if j["what"] == "pair"), "engine_scenarios": 5, "orders_per_scenario": "all n! for n <= 4 processes, else identity, reverse and seeded random orders "
                   "(12 quick / 120 thorough), each also with the pending-set and trigger-set orders reversed", "time": "phase, half period, delays < 2**16 fs; clock alone: 6 (quick) / 10 (thorough) toggles; clock with two chained delays: 2 / 4 toggles, both delays expiring no later than the last observed toggle",
                   "outside": "odd periods (the half period is floor(period/2)); float arithmetic inside Period(...); VCD writers; more than two testbenches"}
     rep.stubs = ["HSignalState / HMemoryState (proved equal to the genuine classes by the state-class obligations)", "amaranth.sim._async.Const.cast on proxies (identity on the value)",
